@@ -69,6 +69,14 @@ def integrate(beh, eps, zOld, dt, cls=""):
         if "did not converge" in str(e):
             raise Inconclusive("plane-stress iteration did not converge " + cls)
         raise
+    except np.linalg.LinAlgError as e:
+        # the local Newton (Behavior.__Flow) met a singular Jacobian (stiff rate laws, large steps): the step does not converge,
+        # which puts it outside the quantifier like the non-convergence the library reports through its flag / assertion
+        import traceback
+
+        if "_Flow" in traceback.format_exc():
+            raise Inconclusive("local Newton: singular Jacobian " + cls)
+        raise
 
 
 def strain6(beh, mode, eps, zOld, dt):
